@@ -1080,6 +1080,24 @@ type stanzaEncoder struct {
 	depth int
 	from  jid.JID
 	ns    string
+	// stanza is true while the top level element being written is a stanza.
+	stanza bool
+}
+
+// declaresForeignNS reports whether an element without a namespace carries an
+// explicit declaration of a namespace other than the stanza namespaces (raw
+// tokens, as used when encoding Go values, look like this): such an element
+// is not a stanza even if it is called iq, message or presence.
+func declaresForeignNS(tok xml.StartElement) bool {
+	if tok.Name.Space != "" {
+		return false
+	}
+	for _, attr := range tok.Attr {
+		if attr.Name.Space == "" && attr.Name.Local == "xmlns" {
+			return attr.Value != "" && attr.Value != stanza.NSClient && attr.Value != stanza.NSServer
+		}
+	}
+	return false
 }
 
 func (se *stanzaEncoder) EncodeToken(t xml.Token) error {
@@ -1087,7 +1105,10 @@ func (se *stanzaEncoder) EncodeToken(t xml.Token) error {
 	case xml.StartElement:
 		se.depth++
 		// Add required attributes if missing:
-		if se.depth == 1 && isStanzaEmptySpace(tok.Name) {
+		if se.depth == 1 {
+			se.stanza = isStanzaEmptySpace(tok.Name) && !declaresForeignNS(tok)
+		}
+		if se.depth == 1 && se.stanza {
 			if tok.Name.Space == "" {
 				tok.Name.Space = se.ns
 			}
@@ -1144,7 +1165,7 @@ func (se *stanzaEncoder) EncodeToken(t xml.Token) error {
 		tok.Attr = attrs
 		t = tok
 	case xml.EndElement:
-		if se.depth == 1 && tok.Name.Space == "" && isStanzaEmptySpace(tok.Name) {
+		if se.depth == 1 && se.stanza && tok.Name.Space == "" && isStanzaEmptySpace(tok.Name) {
 			tok.Name.Space = se.ns
 			t = tok
 		}
